@@ -2295,7 +2295,7 @@ pub fn c10() -> CheckDef {
         ],
         panic_is_violation: no_panics,
         hang_is_violation: false,
-        quick_runs: 4000,
+        quick_runs: 4600,
         thorough_runs: 35_000,
         rule: "one case = one simulated run; k lost handshake frames = (run index / 2) mod 11; distinct = distinct run digest; non-trivial = at least 10 steps of an established connection were checked for promptness, or a retry budget was evaluated",
         real_code: REAL_B,
